@@ -25,21 +25,10 @@ impl FlowControl {
     /// Returns a future that completes when there is space available.
     /// The returned value contains how much is available.
     pub async fn wait_for_available_space(&self) {
-        // Check if we have space available right now.
-        // Flow control doesn't actually trigger that frequently, so checking twice
-        // is acceptable.
-        if self.has_available_space() {
-            return;
-        }
-
-        loop {
-            // We didn't have space available; set up a notification
-            // so we can wait for it and check again.
-            let notified = self.notifier.notified();
-            if self.has_available_space() {
-                return;
-            }
-            notified.await;
+        // Check if we have space available right now; if we don't, wait
+        // for the counters to change and check again.
+        while !self.has_available_space() {
+            self.notifier.notified().await;
         }
     }
 
